@@ -142,6 +142,17 @@ class UDSClient:
                         last_exception = MissingResponse(request, str(e))
                         break
                     continue
+                except ConnectionError as e:
+                    # Same handling as for the first read: the request ends with
+                    # MissingResponse (or is retried after a reconnect).
+                    logger.warning(f"{request} failed with: {e!r}")
+                    last_exception = MissingResponse(request, str(e))
+                    last_exception.__cause__ = e
+                    if i < max_retry:
+                        logger.info(f"Sleeping for {wait_time}s before attempting to reconnect")
+                        await asyncio.sleep(wait_time)
+                        await self.reconnect_unsafe()
+                    break
                 resp = parse_pdu(raw_resp, request)
                 n_timeout = 0  # Only raise errors for consecutive timeouts
                 n_pending += 1
